@@ -8,6 +8,7 @@ pub mod iso;
 pub mod pgen;
 pub mod srv;
 pub mod util;
+pub mod world;
 pub mod props;
 
 #[global_allocator]
